@@ -154,17 +154,32 @@ func genC05(r *Rand, thor bool) C05Case {
 	case 1:
 		k.Generic = true
 	}
-	// property domain: AppendLosslessLayer=true, or (Rate=0 and TargetRatio=0)
-	k.AppendLL = r.Intn(3) != 0
-	if k.AppendLL {
-		k.Rate = r.Pick(0, 1, 2, 5, 10, 20, 20, 40, 80, 160, 640, 1280)
-		if r.Intn(4) == 0 {
-			k.Rate = r.Range(0, 1280)
-		}
+	// property domain: AppendLosslessLayer=true, or (Rate=0 and TargetRatio=0).
+	// The encoder has four rate-control paths; each is drawn with a fixed share so that none
+	// is starved: (a) Rate>0: rate ladder (LayerRates); (b) Rate=0, TargetRatio>0: PCRD
+	// target-ratio refinement loop (re-runs the packet encoder); (c) Rate=0, TargetRatio=0,
+	// several layers: plain layer allocation; (d) Rate=0, TargetRatio=0, one layer.
+	path := r.Intn(4)
+	k.AppendLL = true
+	switch path {
+	case 0:
+		k.Rate = r.Pick(1, 2, 5, 10, 20, 20, 40, 80, 160, 640, 1280, r.Range(1, 1280))
 		k.Target = float64(r.Pick(0, 0, 0, 1, 2, 5, 8, 9, 20, 50, 100))
-		if r.Intn(5) == 0 {
-			k.Target = float64(r.Range(0, 1000)) / 10
+	case 1:
+		k.Rate = 0
+		k.Target = float64(r.Pick(1, 2, 3, 5, 8, 9, 10, 20, 50, 100))
+		if r.Intn(4) == 0 {
+			k.Target = float64(r.Range(1, 1000)) / 10
 		}
+		// the refinement loop only runs when orig_bytes/TargetRatio exceeds the fixed header
+		// overhead: make most of these images large enough and busy
+		if r.Intn(4) != 0 {
+			k.F.Cols, k.F.Rows = r.Range(48, 128), r.Range(48, 128)
+			k.F.Content = 0
+		}
+	default:
+		k.Rate, k.Target = 0, 0
+		k.AppendLL = r.Bool()
 	}
 	// any descending ladder
 	switch r.Intn(4) {
@@ -181,6 +196,9 @@ func genC05(r *Rand, thor bool) C05Case {
 		}
 	}
 	k.Layers = r.Range(1, 10)
+	if path == 3 {
+		k.Layers = 1
+	}
 	k.PCRD = r.Bool()
 	k.Levels = r.Range(0, 6)
 	k.Prog = r.Range(0, 4)
